@@ -35,11 +35,11 @@ def errnos_for(ev):
     if c == "ftruncate":
         return ["ENOSPC", "EIO", "EPERM", "EINVAL", "EFBIG", "EDQUOT"]
     if c in ("copy_file_range",):
-        return ["ENOSPC", "EIO", "EFBIG", "EDQUOT", "EINVAL", "ENOMEM"]
+        return ["ENOSPC", "EIO", "EFBIG", "EDQUOT", "EINVAL", "ENOMEM", "EINTR", "EAGAIN"]
     if c in ("write", "pwrite64"):
-        return ["ENOSPC", "EIO", "EFBIG", "EDQUOT", "EPERM"]
+        return ["ENOSPC", "EIO", "EFBIG", "EDQUOT", "EPERM", "EINTR"]
     if c == "pread64":
-        return ["EIO", "ENOMEM"]
+        return ["EIO", "ENOMEM", "EINTR"]
     if c == "read":
         return ["EIO", "EINTR", "ENOMEM"]
     if c == "getdents64":
